@@ -87,9 +87,19 @@ Record submit_ok (s : state) (a : actor) (k t : Z) (g : stage) (final : bool) (d
   so_final : final = true ->
      forallb (fun x => negb (k_t x =? t) || (k_kind x =? KSubmission)
                        || mem_z (k_id x) deps || past_main (k_st x)
-                       || (stage_eqb (k_stage x) SIO && stage_eqb g SIO)) (tasks s) = true;
+                       || (stage_eqb (k_stage x) SIO && stage_eqb g SIO
+                           && negb (tst_eqb (k_st x) TSubmitting))) (tasks s) = true;
+  so_kindok : (negb (kind =? KIOFinal) || final)
+              && (negb (kind =? KIOWrite) ||
+                  match find_task a (tasks s) with
+                  | Some x => tst_eqb (k_st x) TMain && (k_kind x =? KGet)
+                  | None => false
+                  end) = true;
   so_ids : forallb (fun x => k_id x <? k) (tasks s) = true
 }.
+
+Definition permit_ok (sem : Z) (g : stage) : bool :=
+  (sem =? sem_of_stage g) || (((sem =? SEM_UP) || (sem =? SEM_DOWN)) && stage_eqb g SReq).
 
 Inductive sstep (s s' : state) : Prop :=
   | ss_other : tasks s' = tasks s -> same_stages s s' -> sems s' = sems s -> sstep s s'
@@ -103,7 +113,7 @@ Inductive sstep (s s' : state) : Prop :=
       tasks s' = upd_task k f (tasks s) -> same_stages s s' -> sems s' = sems s -> sstep s s'
   | ss_acquire k x sem v :
       find_task k (tasks s) = Some x -> find_sem sem (sems s) = Some v -> 0 < v ->
-      k_st x = TSubmitting -> k_permit x = -1 ->
+      k_st x = TSubmitting -> k_permit x = -1 -> permit_ok sem (k_stage x) = true ->
       tasks s' = upd_task k (fun y => with_permit y sem) (tasks s) ->
       sems s' = upd_sem sem (-1) (sems s) -> same_stages s s' -> coords s' = coords s -> sstep s s'
   | ss_enqueue k x :
@@ -230,12 +240,13 @@ Proof.
     + lia.
     + match goal with Hn : negb (existsb _ _) = true |- _ => now apply negb_true_iff in Hn end.
     + intros ->. assumption.
+    + apply andb_true_intro; split; assumption.
   - (* EAcquire *)
     destruct (find_task k (tasks s)) eqn:Eft; [|discriminate].
     destruct (find_sem sem (sems s)) eqn:Efs; [|discriminate].
     inv H. injection H as <-. split_ands.
     eapply ss_acquire with (k := k) (x := t) (sem := sem) (v := z);
-      [exact Eft|exact Efs|lia|now apply tst_eqb_true|lia|reflexivity|reflexivity|same_st|reflexivity].
+      [exact Eft|exact Efs|lia|now apply tst_eqb_true|lia|assumption|reflexivity|reflexivity|same_st|reflexivity].
   - (* EEnqueue *)
     destruct (find_task k (tasks s)) eqn:Eft; [|discriminate].
     inv H. injection H as <-. split_ands.
@@ -308,13 +319,16 @@ Proof.
       [exact Eft|intros z Hz; now destruct ok| | |reflexivity|same_st|reflexivity].
     + destruct ok.
       * apply ts_main_ok; [exact Hst| |].
-        -- intros Hfin. rewrite Hfin in *. cbn in *. unfold coord_success. now rewrite Efc.
+        -- intros Hfin. rewrite Hfin in *. unfold coord_success. rewrite Efc.
+           match goal with Hb : eqb true (status_eqb _ Success) = true |- _ => apply eqb_prop in Hb; now rewrite <- Hb end.
         -- intros Hk. unfold KSubmission in *.
            destruct (k_kind t =? 0) eqn:Ek; [|lia].
            match goal with Hs : true && _ = true |- _ => cbn in Hs; apply orb_prop in Hs as [Hs|Hs]; lia end.
-      * apply ts_main_fail; [exact Hst|].
-        intros Hk. unfold KSubmission in *. destruct (k_kind t =? 0) eqn:Ek; [|lia].
-        match goal with Hs : false && _ = true |- _ => discriminate Hs end.
+      * apply ts_main_fail; [exact Hst| |].
+        -- intros Hk. unfold KSubmission in *. destruct (k_kind t =? 0) eqn:Ek; [|lia].
+           match goal with Hs : false && _ = true |- _ => discriminate Hs end.
+        -- intros Hfin. rewrite Hfin in *. unfold coord_success. rewrite Efc.
+           match goal with Hb : eqb false (status_eqb _ Success) = true |- _ => apply eqb_prop in Hb; now rewrite <- Hb end.
     + destruct ok; io_auto.
   - (* ESetResult *)
     inv H. destruct (find_task k (tasks s)); [|discriminate]. inv H. sub_on_coord H. other.
@@ -569,7 +583,7 @@ Lemma ids_inv_step s e s' : ids_inv s -> step s e = Some s' -> ids_inv s'.
 Proof.
   unfold ids_inv. intros I H. apply step_sstep in H.
   destruct H as [Ht _ _|k t g a final deps kind Hn _ Ht _ _ _|k x f Hf Hid _ _ Ht _ _
-                |k x sem v Hf _ _ _ _ Ht _ _ _|k x Hf _ _ _ _ Ht _ _ _|k x rest Hf _ _ _ _ Ht _ _ _
+                |k x sem v Hf _ _ _ _ _ Ht _ _ _|k x Hf _ _ _ _ Ht _ _ _|k x rest Hf _ _ _ _ Ht _ _ _
                 |k x Hf _ _ _ Ht _ _ _|k x Hf _ _ _ Ht _ _ _|g _ Ht _ _ _ _|g _ Ht _ _ _ _ _ _];
     rewrite Ht; try exact I; try (rewrite upd_task_ids; [exact I|intros z Hz; exact Hz]).
   - rewrite map_app. cbn [map fresh_task k_id]. apply NoDup_snoc; [exact I|].
@@ -626,6 +640,14 @@ Proof.
   - apply IH; [|exact Hin]. pose proof (count_nonneg p r). unfold b2z in Hc. destruct (p y); lia.
 Qed.
 
+Lemma count_pos p l x : In x l -> p x = true -> 1 <= count p l.
+Proof.
+  induction l as [|y r IH]; cbn [In count]; [tauto|].
+  intros [->|Hin] Hp.
+  - rewrite Hp. pose proof (count_nonneg p r). cbn [b2z]. lia.
+  - specialize (IH Hin Hp). unfold b2z. destruct (p y); lia.
+Qed.
+
 (** the effect of a step on a count, for the single-task updates *)
 Lemma count_step_upd p s s' k f x :
   ids_inv s -> find_task k (tasks s) = Some x -> tasks s' = upd_task k f (tasks s) ->
@@ -669,7 +691,7 @@ Lemma run_inv_step s e s' : ids_inv s -> run_inv s -> step s e = Some s' -> run_
 Proof.
   intros I0 I H g Hg. apply step_sstep in H. specialize (I g Hg).
   destruct H as [Ht Hs _|k t g0 a final deps kind Hn _ Ht _ Hs _|k x f Hf Hid Hts Hio Ht Hs _
-                |k x sem v Hf _ _ _ _ Ht _ Hs _|k x Hf Hst _ _ _ Ht Hs _ _|k x rest Hf Hst _ _ _ Ht Hs _ _
+                |k x sem v Hf _ _ _ _ _ Ht _ Hs _|k x Hf Hst _ _ _ Ht Hs _ _|k x rest Hf Hst _ _ _ Ht Hs _ _
                 |k x Hf _ Hst _ Ht Hs _ _|k x Hf _ _ _ Ht _ Hs _|g0 _ Ht _ _ _ Hs|g0 _ Ht _ _ _ _ _ Hs].
   - now rewrite Hs, Ht.
   - rewrite Hs, Ht, count_app. cbn [count]. rewrite I.
@@ -719,7 +741,7 @@ Lemma workers_inv_step w s e s' : workers_inv w s -> step s e = Some s' -> worke
 Proof.
   intros I H g Hg. apply step_sstep in H. specialize (I g Hg).
   destruct H as [Ht Hs _|k t g0 a final deps kind Hn _ Ht _ Hs _|k x f Hf Hid Hts Hio Ht Hs _
-                |k x sem v Hf _ _ _ _ Ht _ Hs _|k x Hf Hst _ _ _ Ht Hs _ _|k x rest Hf Hst _ _ Hlt Ht Hs _ _
+                |k x sem v Hf _ _ _ _ _ Ht _ Hs _|k x Hf Hst _ _ _ Ht Hs _ _|k x rest Hf Hst _ _ Hlt Ht Hs _ _
                 |k x Hf _ Hst _ Ht Hs _ _|k x Hf _ _ _ Ht _ Hs _|g0 _ Ht _ _ _ Hs|g0 _ Ht _ _ _ _ _ Hs];
     try (rewrite Hs; exact I);
     destruct (stage_set_cases _ _ _ _ g Hs) as [[-> E]|[Hne E]]; rewrite E; cbn [g_running g_workers];
@@ -813,7 +835,7 @@ Lemma queue_inv_step s e s' : queue_inv s -> step s e = Some s' -> queue_inv s'.
 Proof.
   intros I H g Hg. apply step_sstep in H. specialize (I g Hg).
   destruct H as [Ht Hs _|k t g0 a final deps kind Hn _ Ht _ Hs _|k x f Hf Hid Hts Hio Ht Hs _
-                |k x sem v Hf _ _ _ _ Ht _ Hs _|k x Hf Hst _ Hni _ Ht Hs _ _|k x rest Hf Hst Hni Hq _ Ht Hs _ _
+                |k x sem v Hf _ _ _ _ _ Ht _ Hs _|k x Hf Hst _ Hni _ Ht Hs _ _|k x rest Hf Hst Hni Hq _ Ht Hs _ _
                 |k x Hf Hni Hst _ Ht Hs _ _|k x Hf _ _ _ Ht _ Hs _|g0 _ Ht _ _ _ Hs|g0 _ Ht _ _ _ _ _ Hs].
   - (* other *)
     apply (qinv_ext s s' g (Hs g)); [| |exact I]; intros k; unfold task_at; now rewrite Ht.
@@ -934,12 +956,14 @@ Record leave_ok (s s' : state) (k : Z) (x y : task) : Prop := {
                          (c_status c' = Queued \/ c_status c' = Running);
   lo_annend : (k_st x = TAnn /\ k_st y = TAnnDone) \/ (k_phase x = 4 /\ k_phase y = 5) ->
               exists t c, find_coord t (coords s) = Some c /\ ann_phase k (c_announcers c) = Some 5 /\
-                coords s' = upd_coord t (fun c0 => c_with_ann c0 (c_owing c0) (ann_del k (c_announcers c0))) (coords s)
+                coords s' = upd_coord t (fun c0 => c_with_ann c0 (c_owing c0) (ann_del k (c_announcers c0))) (coords s);
+  lo_permit : k_permit y <> k_permit x -> permit_ok (k_permit y) (k_stage y) = true
 }.
 
-Lemma leave_ok_same_st s s' k x y : k_st y = k_st x -> k_phase y = k_phase x -> leave_ok s s' k x y.
+Lemma leave_ok_same_st s s' k x y :
+  k_st y = k_st x -> k_phase y = k_phase x -> k_permit y = k_permit x -> leave_ok s s' k x y.
 Proof.
-  intros E E2. constructor; rewrite ?E, ?E2; intros; try congruence; try lia.
+  intros E E2 E3. constructor; rewrite ?E, ?E2; intros; try congruence; try lia.
   - destruct H as [[H1 H2]|[H1 H2]]; [congruence|lia].
   - destruct H as [[H1 H2]|[H1 H2]]; [congruence|lia].
 Qed.
@@ -978,9 +1002,9 @@ Proof.
 Qed.
 
 Ltac lo_tac :=
-  constructor; cbn [k_st k_phase with_st];
+  constructor; cbn [k_st k_phase k_permit with_st];
   [ intros ?H1 ?H2 | intros ?H1 ?H2 | intros ?H1 ?H2 ?H3 | intros [[?H1 ?H2]|[?H1 ?H2]] | intros ?H1 ?H2
-  | intros [[?H1 ?H2]|[?H1 ?H2]] ];
+  | intros [[?H1 ?H2]|[?H1 ?H2]] | intros ?H1 ];
   try lia; try assumption; try contradiction; try congruence;
   try (match goal with Hst : k_st _ = _ |- _ => rewrite Hst in *; cbn in *; congruence end);
   try (match goal with Hst : if k_final ?x then _ else _ |- _ => destruct (k_final x); congruence end).
@@ -989,7 +1013,7 @@ Lemma sstep_tasks s s' : sstep s s' -> tasks_evolve s s'.
 Proof.
   intros H.
   destruct H as [Ht Hs _|k t g0 a final deps kind Hn Hso Ht _ Hs _|k x f Hf Hid Hts Hio Ht Hs _
-                |k x sem v Hf _ _ Hst Hp Ht _ Hs _|k x Hf Hst Hp Hni _ Ht Hs _ _|k x rest Hf Hst Hni Hq _ Ht Hs _ _
+                |k x sem v Hf _ _ Hst Hp Hpok Ht _ Hs _|k x Hf Hst Hp Hni _ Ht Hs _ _|k x rest Hf Hst Hni Hq _ Ht Hs _ _
                 |k x Hf Hni Hst Hb Ht Hs _ _|k x Hf Hst Hr _ Ht _ Hs _|g0 _ Ht _ _ _ Hs|g0 _ Ht _ _ _ _ _ Hs].
   - split; [|split; [|split]]; rewrite Ht.
     + intros k x Hx. exists x. split; [exact Hx|]. split; [constructor|now apply leave_ok_same_st].
@@ -1006,8 +1030,11 @@ Proof.
       cbn [k_id fresh_task] in *.
       destruct (k =? k1) eqn:E1; [|discriminate]. destruct (k =? k2) eqn:E2; [|discriminate]. lia.
     + intros k1 k2 x1 x2 y1 y2 H1 H2 Hy1 Hy2 N1 N2. rewrite find_task_app, H1 in Hy1. congruence.
-  - apply (evolve_upd s s' k x f Hf Hid Ht Hts). destruct Hio. constructor; assumption.
-  - apply (evolve_upd s s' k x (fun y => with_permit y sem) Hf (fun z Hz => Hz) Ht); [now apply ts_permit|now apply leave_ok_same_st].
+  - apply (evolve_upd s s' k x f Hf Hid Ht Hts). destruct Hio. constructor; try assumption. congruence.
+  - apply (evolve_upd s s' k x (fun y => with_permit y sem) Hf (fun z Hz => Hz) Ht); [now apply ts_permit|].
+    constructor; cbn [k_st k_phase k_permit k_stage with_permit]; intros; try congruence; try lia; try assumption.
+    + destruct H as [[H1 H2]|[H1 H2]]; [congruence|lia].
+    + destruct H as [[H1 H2]|[H1 H2]]; [congruence|lia].
   - apply (evolve_upd s s' k x (fun y => with_st y TQueued) Hf (fun z Hz => Hz) Ht); [now apply ts_enqueue|]. lo_tac.
   - apply (evolve_upd s s' k x (fun y => with_st y TStarted) Hf (fun z Hz => Hz) Ht); [now apply ts_start|]. lo_tac.
   - apply (evolve_upd s s' k x (fun y => with_st y TEnded) Hf (fun z Hz => Hz) Ht); [now apply ts_end|]. lo_tac.
@@ -1084,7 +1111,7 @@ Proof.
   pose proof (released_ended _ _ _ _ _ _ _ _ _ Hr) as Hrel.
   apply step_sstep in H. destruct (I i cp Hi Hc) as (v & Hv & Hv0 & Hsum).
   destruct H as [Ht _ Hs|k t g0 a0 final deps kind Hn _ Ht _ _ Hs|k x f0 Hf Hid Hts Hio Ht _ Hs
-                |k x sem v0 Hf Hfs Hpos Hst Hp Ht Hs _ _|k x Hf Hst _ _ _ Ht _ Hs _|k x rest Hf Hst _ _ _ Ht _ Hs _
+                |k x sem v0 Hf Hfs Hpos Hst Hp _ Ht Hs _ _|k x Hf Hst _ _ _ Ht _ Hs _|k x rest Hf Hst _ _ _ Ht _ Hs _
                 |k x Hf _ Hst _ Ht _ Hs _|k x Hf Hst Hrl Hp Ht Hs _ _|g0 _ Ht Hs _ _ _|g0 _ Ht Hs _ _ _ _ _].
   - exists v. now rewrite Hs, Ht.
   - exists v. rewrite Hs, Ht, count_app. cbn [count]. unfold holds at 2, fresh_task. cbn [k_permit k_released].
@@ -1642,8 +1669,9 @@ Proof.
   13: { (* ESetResult *)
     right. destruct (busy s k) eqn:Eb; [discriminate|].
     destruct (find_task k (tasks s)) as [x|] eqn:Ex; [|discriminate].
-    destruct (tst_eqb (k_st x) TMain && k_final x) eqn:Eg; [|discriminate].
-    apply andb_prop in Eg as [E1 E2]. exists k, x. repeat split; try assumption; try reflexivity.
+    match type of H with (if ?b then _ else _) = _ => destruct b eqn:Eg; [|discriminate] end.
+    apply andb_prop in Eg as [Eg _]. apply andb_prop in Eg as [E1 E2].
+    exists k, x. repeat split; try assumption; try reflexivity.
     - now apply tst_eqb_true.
     - now apply on_coord_tasks in H.
     - apply on_coord_inv in H as (c & y & Hc & [= <-] & ->). cbn [coords set_coords].
@@ -1689,6 +1717,9 @@ Proof.
   intros H He. destruct H; cbn; auto; try congruence.
 Qed.
 
+Lemma tstep_not_submitting s x y : tstep s x y -> k_st x <> TSubmitting -> k_st y <> TSubmitting.
+Proof. intros H Hn. destruct H; cbn; try assumption; discriminate. Qed.
+
 Definition after_deps (v : tst) : bool :=
   match v with TSubmitting | TQueued | TStarted => false | _ => true end.
 
@@ -1701,7 +1732,7 @@ Record plan_inv (s : state) : Prop := {
   pi_plan : forall kf F kx x, find_task kf (tasks s) = Some F -> find_task kx (tasks s) = Some x ->
             k_final F = true -> k_t x = k_t F -> kx <> kf ->
             k_kind x = KSubmission \/ In kx (k_deps F) \/ past_main (k_st x) = true \/
-            (k_stage x = SIO /\ k_stage F = SIO);
+            (k_stage x = SIO /\ k_stage F = SIO /\ k_st x <> TSubmitting);
   (* a task past its dependency wait has all its dependencies ended *)
   pi_deps : forall kf F d, find_task kf (tasks s) = Some F -> after_deps (k_st F) = true ->
             In d (k_deps F) -> exists x, find_task d (tasks s) = Some x /\ k_st x = TEnded;
@@ -1740,8 +1771,9 @@ Proof.
     + destruct (tstep_static _ _ _ HtsF) as (_ & E1 & E1s & _ & E2 & E2d & _).
       destruct (tstep_static _ _ _ Htsx) as (_ & E3 & E3s & _ & _ & _ & E3k).
       rewrite E3k, E2d, E3s, E1s.
-      destruct (I2 kf F kx x HF Hx) as [G|[G|[G|G]]]; try congruence; auto.
-      right. right. left. eapply tstep_past_main_mono; eauto.
+      destruct (I2 kf F kx x HF Hx) as [G|[G|[G|(G1 & G2 & G3)]]]; try congruence; auto.
+      * right. right. left. eapply tstep_past_main_mono; eauto.
+      * right. right. right. repeat split; try assumption. eapply tstep_not_submitting; eauto.
     + exfalso. destruct (tstep_static _ _ _ HtsF) as (_ & E1 & _ & _ & E2 & _). cbn in Ht.
       eapply (no_final_absurd s t2); [exact (so_nofinal _ _ _ _ _ _ _ _ Hso2)|exact HF|congruence|congruence].
     + cbn [k_final k_t k_deps k_stage fresh_task] in *. subst fin.
@@ -1755,8 +1787,9 @@ Proof.
         -- apply orb_prop in Hall as [Hall|Hall]; [left; lia|].
            right. left. apply mem_z_true in Hall. now rewrite Hid in Hall.
         -- right. right. left. eapply tstep_past_main_mono; eauto.
-      * right. right. right. apply andb_prop in Hall as [G1 G2].
-        split; now apply stage_eqb_eq.
+      * right. right. right. apply andb_prop in Hall as [G1 G3]. apply andb_prop in G1 as [G1 G2].
+        split; [now apply stage_eqb_eq|]. split; [now apply stage_eqb_eq|].
+        eapply tstep_not_submitting; [exact Htsx|]. intros Hc. rewrite Hc in G3. discriminate.
     + exfalso. destruct Hev as (_ & _ & Huniq & _). apply Hne. symmetry. exact (Huniq _ _ _ _ HFn Hxn HF' Hx').
   - intros kf F' d HF' Had Hd.
     destruct (evolve_pred _ _ _ _ Hev HF') as [(F & HF & HtsF & _)|(HFn & a & t & g & fin & deps & kind & -> & Hso)].
@@ -1795,16 +1828,120 @@ Proof.
   intros s0 ev s1 I H. eapply plan_inv_step; eauto.
 Qed.
 
+(** * Part 11b (C03): IO tasks of a transfer are enqueued before its IO final task *)
+Lemma app_snoc_split (h l1 l2 : list Z) k kf :
+  h ++ [k] = l1 ++ kf :: l2 ->
+  (l2 = [] /\ h = l1 /\ k = kf) \/ (exists l2', l2 = l2' ++ [k] /\ h = l1 ++ kf :: l2').
+Proof.
+  destruct l2 as [|z r] using rev_ind; intros E.
+  - left. change (l1 ++ [kf]) with (l1 ++ [kf]) in E. apply app_inj_tail in E as [E1 E2]. auto.
+  - right. clear IHr. replace (l1 ++ kf :: r ++ [z]) with ((l1 ++ kf :: r) ++ [z]) in E
+      by (rewrite <- app_assoc; reflexivity).
+    apply app_inj_tail in E as [E1 E2]. subst. eauto.
+Qed.
+
+Lemma NoDup_split_unique (a1 b1 a2 b2 : list Z) k :
+  NoDup (a1 ++ k :: b1) -> a1 ++ k :: b1 = a2 ++ k :: b2 -> a1 = a2.
+Proof.
+  revert a2. induction a1 as [|y r IH]; intros a2 Hnd E.
+  - destruct a2 as [|z a2']; [reflexivity|]. cbn in E. injection E as E1 E2. subst z.
+    inversion Hnd as [|? ? Hn _]. exfalso. apply Hn. rewrite E2. apply in_or_app. right. now left.
+  - destruct a2 as [|z a2']; cbn in E; injection E as E1 E2.
+    + subst y. inversion Hnd as [|? ? Hn _]. exfalso. apply Hn. apply in_or_app. right. now left.
+    + subst z. f_equal. apply IH; [now inversion Hnd|exact E2].
+Qed.
+
+Lemma count_two p l (x y : task) :
+  In x l -> In y l -> k_id x <> k_id y -> p x = true -> p y = true -> 2 <= count p l.
+Proof.
+  induction l as [|z r IH]; cbn [In count]; [tauto|].
+  intros [->|Hx] [->|Hy] Hne Px Py; try congruence.
+  - rewrite Px. pose proof (count_pos p r y Hy Py). cbn [b2z]. lia.
+  - rewrite Py. pose proof (count_pos p r x Hx Px). cbn [b2z]. lia.
+  - specialize (IH Hx Hy Hne Px Py). unfold b2z. destruct (p z); lia.
+Qed.
+
+Lemma hist_io_step s e s' :
+  step s e = Some s' ->
+  g_history (st_io s') = g_history (st_io s) \/
+  exists k x, find_task k (tasks s) = Some x /\ k_st x = TSubmitting /\ k_stage x = SIO /\
+              g_history (st_io s') = g_history (st_io s) ++ [k].
+Proof.
+  intros H. apply step_sstep in H.
+  destruct H as [Ht Hs _|k t g0 a final deps kind Hn _ Ht _ Hs _|k x f Hf Hid Hts Hio Ht Hs _
+                |k x sem v Hf _ _ _ _ _ Ht _ Hs _|k x Hf Hst _ Hni Hsh Ht Hs _ _|k x rest Hf Hst Hni Hq _ Ht Hs _ _
+                |k x Hf Hni Hst _ Ht Hs _ _|k x Hf _ _ _ Ht _ Hs _|g0 Hg0 Ht _ _ _ Hs|g0 Hg0 Ht _ _ Hsh Hrun Hq Hs];
+    try (left; exact (f_equal g_history (Hs SIO)));
+    (destruct (stage_set_cases _ _ _ _ SIO Hs) as [[E1 E]|[Hne E]];
+     [rewrite <- E1 in *|]; cbn [get_stage] in E;
+     try (left; rewrite E; reflexivity)).
+  right. exists k, x. rewrite E. cbn. auto.
+Qed.
+
+Definition io_ord_inv (s : state) : Prop :=
+  forall kf F kx x, find_task kf (tasks s) = Some F -> find_task kx (tasks s) = Some x ->
+    k_final F = true -> k_t x = k_t F -> kx <> kf -> k_stage x = SIO -> k_stage F = SIO ->
+    ~ In kx (k_deps F) -> k_kind x <> KSubmission ->
+    forall l1 l2, g_history (st_io s) = l1 ++ kf :: l2 -> In kx l1.
+
+Lemma io_ord_inv_step a b c d e0 f g h s e s' :
+  reachable (init a b c d e0 f g h) s -> io_ord_inv s -> step s e = Some s' -> io_ord_inv s'.
+Proof.
+  intros Hr I H kf F' kx x' HF' Hx' Hfin Ht Hne Hsx HsF Hnd Hk l1 l2 Hh.
+  pose proof (step_evolve _ _ _ H) as Hev.
+  pose proof (plan_inv_reachable _ _ _ _ _ _ _ _ _ Hr) as [P1 P2 P3 P4].
+  destruct (queue_inv_reachable _ _ _ _ _ _ _ _ _ Hr SIO ltac:(discriminate)) as [_ _ Q3 _].
+  change (get_stage s SIO) with (st_io s) in Q3.
+  assert (Hin_hist : forall k0, find_task k0 (tasks s) = None -> ~ In k0 (g_history (st_io s))).
+  { intros k0 Hn Hin. apply Q3 in Hin as (y & Hy & _). congruence. }
+  destruct (evolve_pred _ _ _ _ Hev HF') as [(F & HF & HtsF & _)|(HFn & a1 & t & g1 & fin & deps & kind & -> & Hso)].
+  2: { (* the final task was just submitted: it is not in the history *)
+    exfalso. destruct (hist_io_step _ _ _ H) as [E|(k & y & Hy & _ & _ & E)]; rewrite E in Hh.
+    - apply (Hin_hist kf HFn). rewrite Hh. apply in_or_app. right. now left.
+    - assert (Hin : In kf (g_history (st_io s) ++ [k])) by (rewrite Hh; apply in_or_app; right; now left).
+      apply in_app_or in Hin as [Hin|[<-|[]]]; [now apply (Hin_hist kf HFn)|congruence]. }
+  destruct (evolve_pred _ _ _ _ Hev Hx') as [(x & Hx & Htsx & _)|(Hxn & a2 & t2 & g2 & fin2 & deps2 & kind2 & -> & Hso2)].
+  2: { exfalso. destruct (tstep_static _ _ _ HtsF) as (_ & E1 & _ & _ & E2 & _). cbn in Ht.
+       eapply (no_final_absurd s t2); [exact (so_nofinal _ _ _ _ _ _ _ _ Hso2)|exact HF|congruence|congruence]. }
+  destruct (tstep_static _ _ _ HtsF) as (_ & E1 & E1s & _ & E2 & E2d & _).
+  destruct (tstep_static _ _ _ Htsx) as (_ & E3 & E3s & _ & _ & _ & E3k).
+  assert (Hfin0 : k_final F = true) by congruence. assert (Ht0 : k_t x = k_t F) by congruence.
+  assert (Hsx0 : k_stage x = SIO) by congruence. assert (HsF0 : k_stage F = SIO) by congruence.
+  assert (Hnd0 : ~ In kx (k_deps F)) by congruence. assert (Hk0 : k_kind x <> KSubmission) by congruence.
+  destruct (hist_io_step _ _ _ H) as [E|(k & y & Hy & Hyst & _ & E)]; rewrite E in Hh.
+  - exact (I kf F kx x HF Hx Hfin0 Ht0 Hne Hsx0 HsF0 Hnd0 Hk0 l1 l2 Hh).
+  - destruct (app_snoc_split _ _ _ _ _ Hh) as [(_ & Hl1 & Hkk)|(l2' & -> & Hh0)].
+    + (* the final task is being enqueued: the other IO task is already in the history *)
+      rewrite <- Hl1. apply Q3. exists x. split; [exact Hx|]. split; [exact Hsx0|].
+      destruct (P2 kf F kx x HF Hx Hfin0 Ht0 Hne) as [G|[G|[G|(_ & _ & G)]]]; try contradiction; [|exact G].
+      intros Hc. rewrite Hc in G. discriminate.
+    + exact (I kf F kx x HF Hx Hfin0 Ht0 Hne Hsx0 HsF0 Hnd0 Hk0 l1 l2' Hh0).
+Qed.
+
+Lemma io_ord_inv_reachable a b c d e f g h s : reachable (init a b c d e f g h) s -> io_ord_inv s.
+Proof.
+  intros Hr.
+  assert (G : forall s1, reachable (init a b c d e f g h) s1 ->
+              reachable (init a b c d e f g h) s1 /\ io_ord_inv s1).
+  { apply invariant_reachable.
+    - split; [apply reachable_refl|]. intros kf F kx x HF. discriminate HF.
+    - intros s0 ev s1 [Hr0 I] H. split; [eapply reachable_step; eauto|]. eapply io_ord_inv_step; eauto. }
+  now apply G.
+Qed.
+
 (** * Part 12 (C03): when the final task passed its done-check every other step had succeeded *)
 Definition after_check (F : task) : Prop := k_st F = TReady \/ k_ran_main F = true.
 Definition good (x : task) : Prop :=
   past_main (k_st x) = true /\ k_main_ok x = true /\ k_skipped x = false /\ k_ran_main x = true.
-Definition covered (F : task) (kx : Z) (x : task) : Prop :=
-  k_kind x <> KSubmission /\ (In kx (k_deps F) \/ ~ (k_stage x = SIO /\ k_stage F = SIO)).
+(** [wio] is the number of IO workers: with a single IO worker the IO tasks
+    enqueued before an IO final task have ended when it starts *)
+Definition covered (wio : Z) (F : task) (kx : Z) (x : task) : Prop :=
+  k_kind x <> KSubmission /\
+  (In kx (k_deps F) \/ ~ (k_stage x = SIO /\ k_stage F = SIO) \/ wio = 1).
 
-Definition good_inv (s : state) : Prop :=
+Definition good_inv (wio : Z) (s : state) : Prop :=
   forall kf F kx x, find_task kf (tasks s) = Some F -> find_task kx (tasks s) = Some x ->
-    k_final F = true -> k_t x = k_t F -> kx <> kf -> after_check F -> covered F kx x -> good x.
+    k_final F = true -> k_t x = k_t F -> kx <> kf -> after_check F -> covered wio F kx x -> good x.
 
 Lemma good_stable s x y : tstep s x y -> good x -> good y.
 Proof.
@@ -1813,9 +1950,10 @@ Proof.
 Qed.
 
 Lemma good_inv_step a b c d e0 f g h s e s' :
-  reachable (init a b c d e0 f g h) s -> good_inv s -> step s e = Some s' -> good_inv s'.
+  0 <= a -> 0 <= b -> 0 <= c ->
+  reachable (init a b c d e0 f g h) s -> good_inv c s -> step s e = Some s' -> good_inv c s'.
 Proof.
-  intros Hr I H kf F' kx x' HF' Hx' Hfin Ht Hne Hac Hcov.
+  intros Ha0 Hb0 Hc0 Hr I H kf F' kx x' HF' Hx' Hfin Ht Hne Hac Hcov.
   pose proof (step_evolve _ _ _ H) as Hev.
   pose proof (plan_inv_reachable _ _ _ _ _ _ _ _ _ Hr) as [P1 P2 P3 P4].
   pose proof (flags_reachable _ _ _ _ _ _ _ _ _ Hr) as Hfl.
@@ -1827,7 +1965,7 @@ Proof.
        eapply (no_final_absurd s t2); [exact (so_nofinal _ _ _ _ _ _ _ _ Hso2)|exact HF|congruence|congruence]. }
   destruct (tstep_static _ _ _ HtsF) as (_ & E1 & E1s & _ & E2 & E2d & _).
   destruct (tstep_static _ _ _ Htsx) as (_ & E3 & E3s & _ & _ & _ & E3k).
-  assert (Hcov0 : covered F kx x).
+  assert (Hcov0 : covered c F kx x).
   { destruct Hcov as [C1 C2]. split; [congruence|]. rewrite E2d, E3s, E1s in C2. exact C2. }
   apply (good_stable _ _ _ Htsx).
   assert (Hfin0 : k_final F = true) by congruence. assert (Ht0 : k_t x = k_t F) by congruence.
@@ -1845,8 +1983,37 @@ Proof.
     assert (Hdep : In kx (k_deps F) -> past_main (k_st x) = true).
     { intros Hin. destruct (P3 kf F kx HF) as (x0 & Hx0 & He); [now rewrite HstF|exact Hin|].
       rewrite Hx in Hx0. injection Hx0 as <-. now rewrite He. }
-    destruct (P2 kf F kx x HF Hx Hfin0 Ht0 Hne) as [G|[G|[G|G]]]; [contradiction|auto|exact G|].
-    destruct C2 as [C2|C2]; [auto|contradiction]. }
+    destruct (P2 kf F kx x HF Hx Hfin0 Ht0 Hne) as [G|[G|[G|(G1 & G2 & G3)]]]; [contradiction|auto|exact G|].
+    destruct C2 as [C2|[C2|C2]]; [auto|exfalso; auto|].
+    destruct (in_dec Z.eq_dec kx (k_deps F)) as [Hd|Hndep]; [auto|].
+    (* single IO worker: the other IO task is before the final task in the history *)
+    subst c.
+    pose proof (io_ord_inv_reachable _ _ _ _ _ _ _ _ _ Hr kf F kx x HF Hx Hfin0 Ht0 Hne G1 G2 Hndep C1) as Hord.
+    destruct (queue_is_queued _ _ _ _ _ _ _ _ _ SIO Hr ltac:(discriminate))
+      as (_ & Hnd_h & Hq & Hh & started & Hsplit & Hstarted).
+    cbn [get_stage] in *.
+    assert (HinF : In kf (g_history (st_io s))).
+    { apply Hh. exists F. split; [exact HF|]. split; [exact G2|]. rewrite HstF. discriminate. }
+    destruct (in_split _ _ HinF) as (l1 & l2 & Hl). specialize (Hord l1 l2 Hl).
+    assert (HFs : In kf started).
+    { rewrite Hsplit in HinF. apply in_app_or in HinF as [HinF|HinF]; [exact HinF|].
+      apply Hq in HinF as (F0 & HF0 & _ & HF0q). rewrite HF in HF0. injection HF0 as <-. congruence. }
+    destruct (in_split _ _ HFs) as (s1 & s2 & Hs12).
+    assert (El : l1 = s1).
+    { apply (NoDup_split_unique l1 l2 s1 (s2 ++ g_queue (st_io s)) kf); [now rewrite <- Hl|].
+      rewrite <- Hl, Hsplit, Hs12, <- app_assoc. reflexivity. }
+    assert (Hxs : In kx started) by (rewrite Hs12; apply in_or_app; left; congruence).
+    destruct (Hstarted kx Hxs) as (x0 & Hx0 & _ & Hns & Hnq). rewrite Hx in Hx0. injection Hx0 as <-.
+    destruct (running_st (k_st x)) eqn:Erx.
+    - exfalso.
+      destruct (workers_inv_reachable a b 1 d e0 f g h s Ha0 Hb0 Hc0 Hr SIO ltac:(discriminate)) as [_ Hle].
+      rewrite (run_inv_reachable _ _ _ _ _ _ _ _ _ Hr SIO ltac:(discriminate)) in Hle. cbn [wk] in Hle.
+      destruct (find_task_in _ _ _ HF) as [HinFt HidF]. destruct (find_task_in _ _ _ Hx) as [Hinx Hidx].
+      assert (2 <= count (runs_in SIO) (tasks s)); [|lia].
+      apply (count_two _ _ x F Hinx HinFt); [congruence| |]; unfold runs_in.
+      + now rewrite G1, Erx.
+      + now rewrite G2, HstF.
+    - destruct (k_st x); try discriminate; try reflexivity; congruence. }
   assert (Hok : k_main_ok x = true).
   { destruct (k_main_ok x) eqn:Eok; [reflexivity|].
     pose proof (Hfd kx x Hx Hpm Eok) as Hdone. rewrite Ht0 in Hdone. congruence. }
@@ -1855,14 +2022,15 @@ Proof.
   destruct (k_skipped x) eqn:Esk; [|reflexivity]. destruct (Fl1 eq_refl) as (_ & Hc & _). congruence.
 Qed.
 
-Lemma good_inv_reachable a b c d e f g h s : reachable (init a b c d e f g h) s -> good_inv s.
+Lemma good_inv_reachable a b c d e f g h s :
+  0 <= a -> 0 <= b -> 0 <= c -> reachable (init a b c d e f g h) s -> good_inv c s.
 Proof.
-  intros Hr.
+  intros Ha0 Hb0 Hc0 Hr.
   assert (G : forall s1, reachable (init a b c d e f g h) s1 ->
-              reachable (init a b c d e f g h) s1 /\ good_inv s1).
+              reachable (init a b c d e f g h) s1 /\ good_inv c s1).
   { apply invariant_reachable.
     - split; [apply reachable_refl|]. intros kf F kx x HF. discriminate HF.
-    - intros s0 ev s1 [Hr0 I] H. split; [eapply reachable_step; eauto|]. eapply good_inv_step; eauto. }
+    - intros s0 ev s1 [Hr0 I] H. split; [eapply reachable_step; eauto|]. eapply (good_inv_step a b c d e f g h); eauto. }
   now apply G.
 Qed.
 
@@ -1910,6 +2078,76 @@ Proof.
   { apply invariant_reachable.
     - split; [apply reachable_refl|]. intros t c0 Hc. discriminate Hc.
     - intros s0 ev s1 [Hr0 I] H. split; [eapply reachable_step; eauto|]. eapply success_final_inv_step; eauto. }
+  now apply G.
+Qed.
+
+(** a final task whose transfer is successful did not fail: set_result is the
+    last statement of its main *)
+Definition final_ok_inv (s : state) : Prop :=
+  forall kf F co, find_task kf (tasks s) = Some F -> k_final F = true ->
+    find_coord (k_t F) (coords s) = Some co -> c_status co = Success ->
+    k_st F <> TFailed /\ (past_main (k_st F) = true -> k_main_ok F = true).
+
+Lemma tstep_to_failed s x y : tstep s x y -> k_st y = TFailed ->
+  k_st x = TFailed \/ (k_st x = TMain /\ (k_final x = true -> coord_success s (k_t x) = false)).
+Proof.
+  intros H Hy. destruct H; cbn in Hy; try discriminate; auto.
+Qed.
+
+Lemma final_ok_inv_step a b c d e0 f g h s e s' :
+  reachable (init a b c d e0 f g h) s -> final_ok_inv s -> step s e = Some s' -> final_ok_inv s'.
+Proof.
+  intros Hr I H kf F' co' HF' Hfin Hco' Hs.
+  pose proof (flags_reachable _ _ _ _ _ _ _ _ _ Hr) as Hfl.
+  pose proof (plan_inv_reachable _ _ _ _ _ _ _ _ _ Hr) as [P1 _ _ _].
+  pose proof (success_final_inv_reachable _ _ _ _ _ _ _ _ _ Hr) as Hsf.
+  pose proof (step_evolve _ _ _ H) as Hev.
+  pose proof (step_coords_step _ _ _ H) as [_ Hfresh].
+  destruct (evolve_pred _ _ _ _ Hev HF') as [(F & HF & Hts & _)|(_ & a1 & t & g1 & fin & deps & kind & -> & _)].
+  2: { cbn. destruct (stage_eqb g1 SInline); split; discriminate. }
+  destruct (tstep_static _ _ _ Hts) as (_ & Et & _ & _ & Ef & _). rewrite Et in Hco'.
+  assert (Hfin0 : k_final F = true) by congruence.
+  destruct (find_coord (k_t F) (coords s)) as [c0|] eqn:Ec0.
+  2: { rewrite (Hfresh _ _ Hco' Ec0) in Hs. discriminate Hs. }
+  (* the case where the transfer was already successful before the step *)
+  assert (Hold : c_status c0 = Success ->
+            k_st F' <> TFailed /\ (past_main (k_st F') = true -> k_main_ok F' = true)).
+  { intros Hs0. destruct (I kf F c0 HF Hfin0 Ec0 Hs0) as [I1 I2].
+    assert (Hsucc : coord_success s (k_t F) = true) by (unfold coord_success; rewrite Ec0, Hs0; reflexivity).
+    split.
+    - intros Hc. destruct (tstep_to_failed _ _ _ Hts Hc) as [G|[_ G]]; [contradiction|].
+      rewrite (G Hfin0) in Hsucc. discriminate.
+    - intros Hp. destruct (past_main (k_st F)) eqn:Ep.
+      + destruct (tstep_past_main _ _ _ Hts Ep) as (_ & E & _). rewrite E. now apply I2.
+      + (* the final task ran its main, so it cannot have been skipped now *)
+        destruct (Hsf _ _ Ec0 Hs0) as (kf2 & F2 & HF2 & Hfin2 & Ht2 & Hran2).
+        assert (kf2 = kf).
+        { assert (kf2 <= kf) by (eapply (P1 kf F kf2 F2); eauto).
+          assert (kf <= kf2) by (eapply (P1 kf2 F2 kf F); eauto; congruence). lia. }
+        subst kf2. rewrite HF in HF2. injection HF2 as <-.
+        destruct (Hfl kf F HF) as (_ & _ & Fl3 & _). destruct (Fl3 Hran2) as [_ Hst].
+        destruct Hts; cbn in Hp |- *; try reflexivity; try congruence;
+          try (match goal with Hq : k_st _ = _ |- _ => rewrite Hq in Hst, Ep; cbn in *;
+                 destruct Hst as [?|[?|?]]; discriminate end).
+        destruct (k_final x); match goal with Hq : k_st _ = _ |- _ => rewrite Hq in Ep; discriminate end. }
+  destruct (success_only_by_set_result _ _ _ H) as [Hnn|(k & x & -> & Hb & Hx & Hst & Hfinx & Htasks & Hcase)].
+  - apply Hold. eapply Hnn; eauto.
+  - destruct (Hcase _ _ _ Ec0 Hco' Hs) as [Hs0|Ekt]; [now apply Hold|].
+    rewrite Htasks in HF'. rewrite HF in HF'. injection HF' as <-.
+    assert (k = kf).
+    { assert (k <= kf) by (eapply (P1 kf F k x); eauto).
+      assert (kf <= k) by (eapply (P1 k x kf F); eauto). lia. }
+    subst k. rewrite HF in Hx. injection Hx as <-. rewrite Hst. split; discriminate.
+Qed.
+
+Lemma final_ok_inv_reachable a b c d e f g h s : reachable (init a b c d e f g h) s -> final_ok_inv s.
+Proof.
+  intros Hr.
+  assert (G : forall s1, reachable (init a b c d e f g h) s1 ->
+              reachable (init a b c d e f g h) s1 /\ final_ok_inv s1).
+  { apply invariant_reachable.
+    - split; [apply reachable_refl|]. intros kf F co HF. discriminate HF.
+    - intros s0 ev s1 [Hr0 I] H. split; [eapply reachable_step; eauto|]. eapply final_ok_inv_step; eauto. }
   now apply G.
 Qed.
 
@@ -1967,24 +2205,28 @@ Qed.
     not its dependencies excepted) ran its main to normal completion and was
     not skipped *)
 Theorem success_implies_all_ok a b c d e f g h s t co :
+  0 <= a -> 0 <= b -> 0 <= c ->
   reachable (init a b c d e f g h) s -> find_coord t (coords s) = Some co -> c_status co = Success ->
   exists kf F, find_task kf (tasks s) = Some F /\ k_final F = true /\ k_t F = t /\
-    k_ran_main F = true /\ k_skipped F = false /\
+    k_ran_main F = true /\ k_skipped F = false /\ k_st F <> TFailed /\
+    (past_main (k_st F) = true -> k_main_ok F = true) /\
     (forall kf' F', find_task kf' (tasks s) = Some F' -> k_final F' = true -> k_t F' = t -> kf' = kf) /\
-    (forall d, In d (k_deps F) -> exists x, find_task d (tasks s) = Some x /\ k_t x = t /\ k_st x = TEnded) /\
+    (forall dd, In dd (k_deps F) -> exists x, find_task dd (tasks s) = Some x /\ k_t x = t /\ k_st x = TEnded) /\
     (forall kx x, find_task kx (tasks s) = Some x -> k_t x = t -> kx <> kf ->
        kx < kf /\
        (k_kind x <> KSubmission ->
-        In kx (k_deps F) \/ ~ (k_stage x = SIO /\ k_stage F = SIO) ->
+        In kx (k_deps F) \/ ~ (k_stage x = SIO /\ k_stage F = SIO) \/ c = 1 ->
         past_main (k_st x) = true /\ k_main_ok x = true /\ k_skipped x = false /\ k_ran_main x = true)).
 Proof.
-  intros Hr Hc Hs.
+  intros Ha0 Hb0 Hc0 Hr Hc Hs.
   destruct (success_final_inv_reachable _ _ _ _ _ _ _ _ _ Hr t co Hc Hs) as (kf & F & HF & Hfin & Ht & Hran).
   pose proof (plan_inv_reachable _ _ _ _ _ _ _ _ _ Hr) as [P1 P2 P3 P4].
   destruct (flags_reachable _ _ _ _ _ _ _ _ _ Hr kf F HF) as (_ & _ & Fl3 & _).
   destruct (Fl3 Hran) as [Hnsk Hst].
+  rewrite <- Ht in Hc.
+  destruct (final_ok_inv_reachable _ _ _ _ _ _ _ _ _ Hr kf F co HF Hfin Hc Hs) as [Hnf Hok].
   exists kf, F. split; [exact HF|]. split; [exact Hfin|]. split; [exact Ht|]. split; [exact Hran|].
-  split; [exact Hnsk|]. split; [|split].
+  split; [exact Hnsk|]. split; [exact Hnf|]. split; [exact Hok|]. split; [|split].
   - intros kf' F' HF' Hfin' Ht'.
     assert (kf' <= kf) by (eapply (P1 kf F kf' F'); eauto; congruence).
     assert (kf <= kf') by (eapply (P1 kf' F' kf F); eauto; congruence). lia.
@@ -1994,7 +2236,8 @@ Proof.
     + rewrite Hx in Hx0. injection Hx0 as <-. exists x. repeat split; congruence.
   - intros kx x Hx Hxt Hne. split.
     + assert (kx <= kf) by (eapply (P1 kf F kx x); eauto; congruence). lia.
-    + intros Hk Hc0. eapply (good_inv_reachable _ _ _ _ _ _ _ _ _ Hr kf F kx x); eauto; try congruence.
+    + intros Hk Hcv.
+      eapply (good_inv_reachable a b c d e f g h s Ha0 Hb0 Hc0 Hr kf F kx x); eauto; try congruence.
       * right. exact Hran.
       * split; assumption.
 Qed.
@@ -2100,13 +2343,6 @@ Definition joined_inv (s : state) : Prop :=
   forall g, g <> SInline -> g_joined (get_stage s g) = true ->
     g_shut (get_stage s g) = true /\ g_running (get_stage s g) = 0 /\ g_queue (get_stage s g) = [].
 
-Lemma count_pos p l x : In x l -> p x = true -> 1 <= count p l.
-Proof.
-  induction l as [|y r IH]; cbn [In count]; [tauto|].
-  intros [->|Hin] Hp.
-  - rewrite Hp. pose proof (count_nonneg p r). cbn [b2z]. lia.
-  - specialize (IH Hin Hp). unfold b2z. destruct (p y); lia.
-Qed.
 
 Lemma joined_inv_step s e s' :
   run_inv s -> joined_inv s -> step s e = Some s' ->
@@ -2117,7 +2353,7 @@ Proof.
             (forall g, g <> SInline -> g_joined (get_stage s g) = true -> g_joined (get_stage s' g) = true)).
   { intros Hs. split; [intros g Hg; rewrite (Hs g); now apply I|intros g Hg; now rewrite (Hs g)]. }
   destruct H as [Ht Hs _|k t g0 a final deps kind Hn _ Ht _ Hs _|k x f Hf Hid Hts Hio Ht Hs _
-                |k x sem v Hf _ _ _ _ Ht _ Hs _|k x Hf Hst _ Hni Hsh Ht Hs _ _|k x rest Hf Hst Hni Hq _ Ht Hs _ _
+                |k x sem v Hf _ _ _ _ _ Ht _ Hs _|k x Hf Hst _ Hni Hsh Ht Hs _ _|k x rest Hf Hst Hni Hq _ Ht Hs _ _
                 |k x Hf Hni Hst _ Ht Hs _ _|k x Hf _ _ _ Ht _ Hs _|g0 Hg0 Ht _ _ _ Hs|g0 Hg0 Ht _ _ Hsh Hrun Hq Hs];
     try (now apply Hsame).
   - (* enqueue: the stage is not shut, hence not joined *)
@@ -2804,3 +3040,44 @@ Theorem shutdown_barrier_unconditional_refuted :
   exists s, run (init 1 2 1 10 10 10 2 2) barrier_counterexample = Some s /\
             shutdown_phase s = 2 /\ after_shutdown_events s = 1.
 Proof. eexists. split; [vm_compute; reflexivity|]. split; reflexivity. Qed.
+
+(** * Part 18 (C10): which permit a task holds; exact executor occupancy *)
+Lemma permit_kind_reachable a b c d e f g h s :
+  reachable (init a b c d e f g h) s ->
+  forall k x, find_task k (tasks s) = Some x ->
+    k_permit x = -1 \/ permit_ok (k_permit x) (k_stage x) = true.
+Proof.
+  apply (invariant_reachable (fun s => forall k x, find_task k (tasks s) = Some x ->
+           k_permit x = -1 \/ permit_ok (k_permit x) (k_stage x) = true)).
+  - intros k x Hx. discriminate Hx.
+  - intros s0 ev s1 I H k y Hy. pose proof (step_evolve _ _ _ H) as Hev.
+    destruct (evolve_pred _ _ _ _ Hev Hy) as [(x & Hx & Hts & Hl)|(_ & a1 & t & g1 & fin & deps & kind & -> & _)];
+      [|now left].
+    destruct (Z.eq_dec (k_permit y) (k_permit x)) as [E|N]; [|right; exact (lo_permit _ _ _ _ _ Hl N)].
+    destruct (tstep_static _ _ _ Hts) as (_ & _ & Es & _). rewrite E, Es. eauto.
+Qed.
+
+(** queued-or-running tasks of the submission and IO executors never exceed
+    the executor's queue size (tag semaphores exist only on the request
+    executor, whose tasks hold either the executor's permit or a tag permit) *)
+Theorem stage_occupancy_exact a b c d e f g h s st cap :
+  1 <= d -> 1 <= e -> 1 <= f -> 1 <= g -> 1 <= h ->
+  reachable (init a b c d e f g h) s -> st = SSub \/ st = SIO ->
+  caps d e f g h (sem_of_stage st) = Some cap ->
+  count (fun x => stage_eqb (k_stage x) st && occupying (k_st x)) (tasks s) <= cap.
+Proof.
+  intros Hd He Hf Hg Hh Hr Hst Hcap.
+  assert (Hi : 0 <= sem_of_stage st) by (destruct Hst as [-> | ->]; cbn; unfold SEM_SUB, SEM_IO; lia).
+  destruct (permit_conservation a b c d e f g h s _ cap Hd He Hf Hg Hh Hr Hi Hcap) as (v & _ & Hv & Hs).
+  assert (count (fun x => stage_eqb (k_stage x) st && occupying (k_st x)) (tasks s)
+          <= count (holds (sem_of_stage st)) (tasks s)); [|lia].
+  apply count_le. intros x Hin Hx. apply andb_prop in Hx as [Hx1 Hx2]. apply stage_eqb_eq in Hx1.
+  pose proof (ids_inv_reachable _ _ _ _ _ _ _ _ _ Hr) as Hids.
+  pose proof (in_find_task _ _ Hids Hin) as Hfx.
+  assert (Hni : k_stage x <> SInline) by (destruct Hst; congruence).
+  destruct (occupying_holds_permit _ _ _ _ _ _ _ _ _ _ _ Hr Hfx Hni Hx2) as [Hp Hrel].
+  destruct (permit_kind_reachable _ _ _ _ _ _ _ _ _ Hr _ _ Hfx) as [Hk|Hk]; [lia|].
+  unfold holds. rewrite Hrel, Bool.andb_true_r. unfold permit_ok in Hk. rewrite Hx1 in *.
+  apply orb_prop in Hk as [Hk|Hk]; [exact Hk|].
+  apply andb_prop in Hk as [_ Hk]. destruct Hst as [-> | ->]; discriminate.
+Qed.
